@@ -181,6 +181,17 @@ CHECKS = {
                 "with every request; textwrap.fill on one-line descriptions and type strings as opaque strings are trusted. Lean kernel + 3 axioms.",
         "technique": "Lean 4 proof (induction over the parameter list, parametric in the docstring layer) + stage-wise differential correspondence",
     },
+    "C07": {
+        "text": "Lean theorems over a character-level port of the CST write-back (find_cst_at_ast, docstring / return-type / argument surgery, get_doc_str, "
+                "reindent_block_with_pass_body, doctransify_cst), an AST-level model of DocTrans with the docstring machinery as an oracle, and doctrans as an "
+                "effect trace: frame (every node that is not a matched header or its docstring is carried over unchanged and in order, for every node list, "
+                "edit list and header-parse oracle - full), failure atomicity (a failed run writes nothing, the write is the last effect - full, with the "
+                "early-open variant proved non-atomic), erase (partial, three negations), header re-synthesis (partial on plain-argument headers, seven negations). "
+                "Tied to the code by exact comparison of spliced node lists, effect traces and written bytes, flat ASTs, ast.unparse(arguments) and re-indentation.",
+        "note": "Partial for clauses (ii) and (iv) (34 known-finding lines: header re-synthesis keeps only name[: ann], stray arrows/parentheses, docstring-slot "
+                "and indentation-sample mistakes, async). CPython's parse of a header is an oracle table. Trusted: Lean kernel + 3 axioms, the harness.",
+        "technique": "Lean 4 proof (induction over node lists, effect-trace reasoning) + exact differential correspondence with doctrans / doctransify_cst",
+    },
     "C20": {
         "text": "Lean theorems over an effect-trace model of exmod / exmod_single_folder / emit_file_on_hierarchy / _emit_symbol / _create_sqlalchemy_mod on an "
                 "abstract file system (string-level posixpath port): with dry_run every effect is a print and the file system is unchanged, for every tree and "
